@@ -311,6 +311,11 @@ func c07compile(class, cfg, dataPath string, timeout time.Duration) string {
 		}
 		return dump()
 	case <-time.After(timeout):
+		if f := os.Getenv("C07_STACKS"); f != "" {
+			buf := make([]byte, 1<<22)
+			buf = buf[:runtime.Stack(buf, true)]
+			os.WriteFile(fmt.Sprintf("%s.%d", f, c07seq), buf, 0o644)
+		}
 		// the compile goroutine is abandoned (it still holds its output directory, removed at teardown)
 		return "hang"
 	}
@@ -404,7 +409,7 @@ func c07run(line string) (string, string) {
 		}
 		spec = c07canon(all)
 	}
-	timeout := 20*time.Second + time.Duration(len(recs)/1000)*2*time.Second
+	timeout := 60*time.Second + time.Duration(len(recs)/1000)*2*time.Second
 	rs := make([]string, len(cfgs))
 	bad := ""
 	for i, cfg := range cfgs {
